@@ -1219,6 +1219,74 @@ def below_a_cached_experiment(chk):
         chk.coverage["traces_validated_against_impl"] += 1
 
 
+def where_in_a_long_lived_process(chk):
+    """`conductor.lib.where()` reports the version selected for the HEAD that is current WHEN IT IS CALLED: one Python
+    process (a notebook, an analysis script) calls it repeatedly from the same directory while the repository moves on
+    -- a new commit with a new version, a detached checkout of the old commit, back to the branch.  After every move the
+    answer must be the version the documented rule selects for the new HEAD (never one recorded at a commit that is not
+    an ancestor of HEAD).  (Seed C05/j: the Context was kept between calls, so HEAD was the one of the FIRST call.)"""
+    import common
+    import implrun
+    import select_util as su2
+
+    files = {"COND": 'run_experiment(name="e", run="echo e > $COND_OUT/r")\n', ".gitignore": "cond-out\n", "cond_config.toml": ""}
+    root = implrun.make_project(files, git=True)
+    for a in (("init", "-q", "-b", "main"), ("config", "user.email", "v@example.org"), ("config", "user.name", "v"), ("add", "-A"), ("commit", "-q", "-m", "c0")):
+        su2.git(root, *a)
+    c0 = su2.git(root, "rev-parse", "HEAD").stdout.strip()
+    server = ("import sys, os\nos.chdir(%r)\nimport conductor.lib as L\n"
+              "for line in sys.stdin:\n"
+              "    try:\n        print('OK ' + str(L.where('//:e')), flush=True)\n"
+              "    except BaseException as ex:\n        print('ERR ' + type(ex).__name__, flush=True)\n") % root
+    env = dict(os.environ, PYTHONPATH=common.SRC, PYTHONDONTWRITEBYTECODE="1")
+    env.pop("COND_OUT", None)
+    proc = subprocess.Popen([sys.executable, "-c", server], stdin=subprocess.PIPE, stdout=subprocess.PIPE, stderr=subprocess.DEVNULL, text=True, env=env, cwd=root)
+
+    def ask():
+        proc.stdin.write("w\n")
+        proc.stdin.flush()
+        return proc.stdout.readline().strip()
+
+    def version_at(commit):
+        rows = [r for r in implrun.index_rows(root) if r[0] == "//:e" and r[2] == commit]
+        return os.path.join(root, "cond-out", "e.task.%d" % rows[-1][1]) if rows else None
+
+    steps, problems = [], []
+    try:
+        r1 = implrun.run_cond(["run", "//:e"], root)
+        first = ask()                                            # HEAD = c0, one version (at c0)
+        steps.append(("HEAD=c0, version at c0", first, version_at(c0)))
+        open(os.path.join(root, "note.txt"), "w").write("1\n")
+        su2.git(root, "add", "-A")
+        su2.git(root, "commit", "-q", "-m", "c1")
+        c1 = su2.git(root, "rev-parse", "HEAD").stdout.strip()
+        r2 = implrun.run_cond(["run", "//:e", "--this-commit"], root)
+        steps.append(("HEAD=c1 after a new commit, versions at c0 and c1", ask(), version_at(c1)))
+        su2.git(root, "checkout", "-q", "--detach", c0)
+        steps.append(("HEAD=c0 (detached), the version at c1 is no ancestor's", ask(), version_at(c0)))
+        su2.git(root, "checkout", "-q", "main")
+        steps.append(("HEAD=c1 again", ask(), version_at(c1)))
+        if r1.code != 0 or r2.code != 0 or version_at(c0) is None or version_at(c1) is None or version_at(c0) == version_at(c1):
+            problems.append("harness: the set-up runs failed: %r %r" % (r1, r2))
+    finally:
+        try:
+            proc.stdin.close()
+        except OSError:
+            pass
+        proc.wait(timeout=30)
+    chk.coverage["evaluations"] += len(steps)
+    chk.count("e2e", "where-in-a-long-lived-process", len(steps))
+    for what, got, want in steps:
+        if got != "OK " + str(want):
+            problems.append("%s: conductor.lib.where('//:e') returned %r, the documented rule selects %r" % (what, got, want))
+    for msg in problems[:2]:
+        chk.violation("impl-violation", "one process calling conductor.lib.where() while HEAD moves: %s" % msg,
+                      {"input": {"part": "where-long-lived", "files": files, "steps": [s[0] for s in steps]}, "impl_observation": [list(map(str, s)) for s in steps], "oracle_verdict": msg},
+                      match_key={"part": "where-long-lived"}, size=4)
+    if not problems:
+        chk.coverage["traces_validated_against_impl"] += len(steps)
+
+
 # ============================================================================= entry point
 def run(tier, seed, replay=None):
     chk = Check("C05", tier, seed)
@@ -1249,6 +1317,7 @@ def run(tier, seed, replay=None):
     n_pairs = part_gitdag(chk, tier)
     n_e2e = part_e2e(chk, tier)
     below_a_cached_experiment(chk)
+    where_in_a_long_lived_process(chk)
     import c07 as _c07   # task names are case sensitive: a version of //:Prep is no version of //:prep (seed C07/i)
 
     _c07.names_differing_in_case(chk)
